@@ -382,6 +382,22 @@ class AbstractGroup:
         self.xs.append((f, xn, pn))
         return xn, pn
 
+    def fresh_point_from_x(self, n):
+        """an arbitrary point whose X equals the symbolic integer n (even y), or ValueError when n is not an abscissa"""
+        self.cnt += 1
+        k = self.cnt
+        oncurve = b_var(f"oncurve{k}")
+        if core.CTX is not None:
+            core.CTX.vars[oncurve.args[0]] = oncurve
+        if branch(b_cmp("eq", n.n, const(0))):
+            return self.Point(d=0)
+        if not branch(b_and(oncurve, b_cmp("lt", n.n, const(self.F.N)))):
+            raise ValueError("not the x coordinate of a curve point")
+        dn = core.new_var(f"L{k}", 1, self.F.N - 1)
+        f = self.F.rf(dn)
+        self.xs.append((f, n.n, FALSE))  # even y by construction
+        return self.Point(d=SI(dn))
+
     def make_point_class(self, S256Point, S256Field):
         grp = self
         F = self.F
@@ -475,6 +491,29 @@ class AbstractGroup:
 
             def __repr__(self):
                 return "<abstract point>"
+
+            @classmethod
+            def parse_xonly(cls, xonly_bin):
+                """x-only lift in the abstract group: bytes that are the encoding of a known point's X give that point's
+                even-y representative; 32 zero bytes give infinity (library convention); anything else is a fresh point"""
+                n = core.int_from_bytes(xonly_bin, "big")
+                if isinstance(n, int):
+                    if n == 0:
+                        return AbstractPoint(d=0)
+                    raise core.Unsupported("concrete x-only key in the abstract group")
+                for f, xn, pn in grp.xs:
+                    if n.n is xn:
+                        d = F.canon(f)
+                        if branch(pn):
+                            d = F.reduce(-lift_si(d))
+                        return AbstractPoint(d=d)
+                return grp.fresh_point_from_x(n)
+
+            @classmethod
+            def parse(cls, binary):
+                if len(binary) == 32:
+                    return cls.parse_xonly(binary)
+                raise core.Unsupported("SEC parsing in the abstract group")
 
         G_holder = [None]
         G = AbstractPoint(d=1)
